@@ -127,8 +127,7 @@ claim("C20",
       "DESIGN.md §4 C20")
 
 # properties whose check currently cannot run clean are withheld here (with the reason) until they do
-WITHHELD = {"C19": "check built (sa/rules/c19.py) but withheld until the repair of two genuine defects it reports "
-                   "(adversarial fit re-initialisation, CorrelationRemover.transform reset) has been validated against the baseline"}
+WITHHELD = {}
 
 for _p, _r in WITHHELD.items():
     NOT_APPLICABLE[_p] = _r
